@@ -92,6 +92,17 @@ func (pac *PACType) Unmarshal(b []byte) (err error) {
 // ProcessPACInfoBuffers processes the PAC Info Buffers.
 // https://msdn.microsoft.com/en-us/library/cc237954.aspx
 func (pac *PACType) ProcessPACInfoBuffers(key types.EncryptionKey, l *log.Logger) error {
+	// The signature buffers are processed and the server signature is verified first, so that the content of the other
+	// buffers is only decoded once it is known to be authentic.
+	err := pac.processSignatureBuffers()
+	if err != nil {
+		return err
+	}
+	if pac.ServerChecksum != nil && pac.KDCChecksum != nil {
+		if ok, err := pac.verifyServerChecksum(key); !ok {
+			return err
+		}
+	}
 	for _, buf := range pac.Buffers {
 		if buf.Offset > uint64(len(pac.Data)) || uint64(buf.CBBufferSize) > uint64(len(pac.Data))-buf.Offset {
 			return fmt.Errorf("PAC info buffer of type %d (offset %d, size %d) lies outside the PAC data", buf.ULType, buf.Offset, buf.CBBufferSize)
@@ -228,6 +239,58 @@ func (pac *PACType) ProcessPACInfoBuffers(key types.EncryptionKey, l *log.Logger
 	}
 
 	return nil
+}
+
+// processSignatureBuffers processes the server and KDC signature info buffers only.
+func (pac *PACType) processSignatureBuffers() error {
+	for _, buf := range pac.Buffers {
+		if buf.ULType != infoTypePACServerSignatureData && buf.ULType != infoTypePACKDCSignatureData {
+			continue
+		}
+		if buf.Offset > uint64(len(pac.Data)) || uint64(buf.CBBufferSize) > uint64(len(pac.Data))-buf.Offset {
+			return fmt.Errorf("PAC info buffer of type %d (offset %d, size %d) lies outside the PAC data", buf.ULType, buf.Offset, buf.CBBufferSize)
+		}
+		p := make([]byte, buf.CBBufferSize, buf.CBBufferSize)
+		copy(p, pac.Data[int(buf.Offset):int(buf.Offset)+int(buf.CBBufferSize)])
+		var k SignatureData
+		zb, err := k.Unmarshal(p)
+		switch buf.ULType {
+		case infoTypePACServerSignatureData:
+			if pac.ServerChecksum != nil {
+				continue
+			}
+			copy(pac.ZeroSigData[int(buf.Offset):int(buf.Offset)+int(buf.CBBufferSize)], zb)
+			if err != nil {
+				return fmt.Errorf("error processing ServerChecksum: %v", err)
+			}
+			pac.ServerChecksum = &k
+		case infoTypePACKDCSignatureData:
+			if pac.KDCChecksum != nil {
+				continue
+			}
+			copy(pac.ZeroSigData[int(buf.Offset):int(buf.Offset)+int(buf.CBBufferSize)], zb)
+			if err != nil {
+				return fmt.Errorf("error processing KDCChecksum: %v", err)
+			}
+			pac.KDCChecksum = &k
+		}
+	}
+	return nil
+}
+
+// verifyServerChecksum verifies the server signature over the PAC data with the signature values zeroed.
+func (pac *PACType) verifyServerChecksum(key types.EncryptionKey) (bool, error) {
+	etype, err := crypto.GetChksumEtype(int32(pac.ServerChecksum.SignatureType))
+	if err != nil {
+		return false, err
+	}
+	if ok := etype.VerifyChecksum(key.KeyValue,
+		pac.ZeroSigData,
+		pac.ServerChecksum.Signature,
+		keyusage.KERB_NON_KERB_CKSUM_SALT); !ok {
+		return false, errors.New("PAC service checksum verification failed")
+	}
+	return true, nil
 }
 
 func (pac *PACType) verify(key types.EncryptionKey) (bool, error) {
